@@ -89,6 +89,17 @@ def run(ctx):
     shapes += fulls
     for _ in range(ctx.n(60, 600)):
         shapes.append(SH.label(SH.random_shape(rnd, rnd.randint(8, 80)))[0])
+
+    def rfull(k):
+        if k == 0:
+            return (None, None)
+        i = rnd.randint(0, k - 1)
+        return (rfull(i), rfull(k - 1 - i))
+    for _ in range(ctx.n(60, 600)):
+        shapes.append(SH.label(rfull(rnd.randint(7, 40)))[0])
+    # canonical witnesses of the recorded findings (known_findings.json)
+    shapes.append(SH.parse_text("(((. 2 .) 1 ((. 4 .) 3 (. 5 .))) 0 ((. 7 .) 6 (((. 10 .) 9 (. 11 .)) 8 ((. 13 .) 12 (. 14 .)))))"))
+    shapes.append(SH.parse_text("((. 1 (. 2 (. 3 .))) 0 ((. 5 .) 4 .))"))
     res.dist["exhaustive_upto_nodes"] = nmax
     res.dist["full_trees"] = len(fulls)
     units = [(F(1), F(1)), (F(2), F(1)), (F(1, 2), F(3)), (F(3), F(1, 2)), (F(1), F(1))]
@@ -113,7 +124,7 @@ def run(ctx):
         if m is not None and m.strip() != got.strip():
             res.disagreements.append(dict(suite="layout", input=inp, impl=got[:600], model=m[:600]))
         coords, b, meas = outs[0]
-        shape_kind = "full" if full_tree else "one-child-nodes"
+        shape_kind = ("full>=15" if n >= 15 else "full<15") if full_tree else "one-child-nodes"
         for cls, detail in tidy(t, coords, ux, uy)[:2]:
             res.failures.append(dict(**{"class": cls}, shape_kind=shape_kind, input=inp, detail=detail))
         xs = [c[0] for c in coords.values()]
